@@ -255,10 +255,15 @@ func (t *T) StdoutEnd() string {
 
 // SymCtx is a context whose Done channel becomes ready from poll K on.
 type SymCtx struct {
-	ID    int
-	Polls int
-	K     int64
+	ID        int
+	Polls     int
+	K         int64
+	Cancelled bool
 }
+
+// Cancel makes the context done from now on (cancellation indexed by the
+// work the script has done rather than by poll count).
+func (c *SymCtx) Cancel() { c.Cancelled = true }
 
 var closedCh = func() chan struct{} { c := make(chan struct{}); close(c); return c }()
 var openCh = make(chan struct{})
@@ -271,13 +276,13 @@ func (c *SymCtx) Deadline() (time.Time, bool) { return time.Time{}, false }
 func (c *SymCtx) Done() <-chan struct{} {
 	j := c.Polls
 	c.Polls++
-	if c.K <= int64(j) {
+	if c.Cancelled || c.K <= int64(j) {
 		return closedCh
 	}
 	return openCh
 }
 func (c *SymCtx) Err() error {
-	if c.Polls > 0 && c.K < int64(c.Polls) {
+	if c.Cancelled || c.Polls > 0 && c.K < int64(c.Polls) {
 		return context.Canceled
 	}
 	return nil
